@@ -868,6 +868,9 @@ class EphemeralAuthenticatedOnionService(object):
         res = yield self._config.tor_protocol.queue_command(cmd)
         if res.strip() != "OK":
             raise RuntimeError("Failed to remove service")
+        # Tor no longer has this service: don't keep listing it
+        if self in self._config.EphemeralOnionServices:
+            self._config.EphemeralOnionServices.remove(self)
 
 
 @implementer(IOnionService)
@@ -981,6 +984,9 @@ class EphemeralOnionService(object):
         res = yield self._config.tor_protocol.queue_command(cmd)
         if res.strip() != "OK":
             raise RuntimeError("Failed to remove service")
+        # Tor no longer has this service: don't keep listing it
+        if self in self._config.EphemeralOnionServices:
+            self._config.EphemeralOnionServices.remove(self)
 
     @property
     def ports(self):
